@@ -7,6 +7,7 @@ from ..astutil import unparse, dotted
 from .. import relocdom as R
 from ..encsum import all_summaries, derived_operand, canon, show_cells
 from ..wiring import chain_outcomes
+from .. import immsites as IS
 
 LEVEL = 'proof'
 
@@ -148,7 +149,10 @@ def run(repo, tier):
         if k not in seen:
             rep.fail(Finding('R7.parse', 'parse_immediate', '{} {}'.format(*k), 'no parse path for {} ({} form)'.format(k[0], 'paren' if k[1] else 'bare'), line=pfn.lineno))
     rep.count('parse_immediate paths', len(seen))
+    # (f) pairing of the halves built by the pseudo-instruction pass
+    IS.check_lo_pairing(rep, facts, 'R7.lo-width', 'R7.guard-fits', 'R7.hi-lo-pair')
+    rep.floor('%lo constructions examined', 5)
     rep.floor('consumer encoders compared', 20)
     rep.floor('parse_immediate paths', 4)
-    rep.not_decided = ['(f) pairing of the %hi/%lo halves built by the pseudo-instruction pass is decided under C03/C05 (R-lo-width, R-auipc)']
+    rep.not_decided = ['consumer pairs written by the user (lui + lw) are covered through (a)-(d) only']
     return rep
